@@ -320,6 +320,9 @@ type fctx struct {
 	disp          map[string]string       // atom -> readable
 	ivs           map[*ssa.Phi]*ivInfo
 	branch        map[*ssa.BasicBlock][]Constraint
+	neqAt         map[*ssa.BasicBlock][]neqFact // "d != 0" outcomes that dominate the block (see neqTighten)
+	neqCollect    *[]neqFact
+	hull          map[*ssa.BasicBlock][]Constraint
 	storesToField map[string]bool
 	allocStores   map[*ssa.Alloc][]*ssa.Store
 	inProgress    map[ssa.Value]bool
@@ -2716,6 +2719,9 @@ func (c *fctx) condFacts(cond ssa.Value, truth bool, depth int) []Constraint {
 		case token.NEQ:
 			// a != b together with a one-sided bound known from intrinsic facts
 			d := a.Sub(b)
+			if c.neqCollect != nil {
+				*c.neqCollect = append(*c.neqCollect, neqFact{d, why})
+			}
 			lo, hi := BoundsOf(c.intrClosure(d), d)
 			if lo != nil && lo.Sign() >= 0 {
 				return []Constraint{GE0(d.AddConst(-1), why)}
@@ -2790,11 +2796,20 @@ func (c *fctx) branchFacts(b *ssa.BasicBlock) []Constraint {
 	c.branch[b] = nil // recursion guard
 	hb0 := c.cycleHits
 	var out []Constraint
+	var neqs []neqFact
+	saved := c.neqCollect
+	c.neqCollect = &neqs
+	defer func() { c.neqCollect = saved }()
 	cur := b
 	for cur != nil {
 		d := cur.Idom()
 		if d == nil {
 			break
+		}
+		if len(cur.Preds) > 1 {
+			c.neqCollect = nil
+			out = append(out, c.mergeHull(cur)...)
+			c.neqCollect = &neqs
 		}
 		// edge d -> s where s dominates b (s == cur or the unique succ on the way)
 		if iff, ok := d.Instrs[len(d.Instrs)-1].(*ssa.If); ok && len(d.Succs) == 2 {
@@ -2809,10 +2824,139 @@ func (c *fctx) branchFacts(b *ssa.BasicBlock) []Constraint {
 		}
 		cur = d
 	}
+	if c.neqAt == nil {
+		c.neqAt = map[*ssa.BasicBlock][]neqFact{}
+	}
+	c.neqAt[b] = neqs
 	if c.cycleHits == hb0 {
 		c.branch[b] = out
 	} else {
 		delete(c.branch, b)
+	}
+	return out
+}
+
+// neqFact: the linear form d is known to be different from 0.
+type neqFact struct {
+	d   *Lin
+	why string
+}
+
+// mergeHull: at a block entered from several branches (not a loop head) a quantity that every incoming edge
+// bounds is bounded by the widest of those bounds: after "if n != 64 && n != 65 { return }" n is 64 on one
+// edge and 65 on the other, so 64 <= n <= 65 at the merge.  Considered: the quantities the incoming edges'
+// own branch conditions speak about alone.
+func (c *fctx) mergeHull(m *ssa.BasicBlock) []Constraint {
+	if len(m.Preds) > 4 {
+		return nil // the end of a large switch: not worth the projection
+	}
+	for _, p := range m.Preds {
+		if m.Dominates(p) {
+			return nil // loop head
+		}
+	}
+	if c.hull == nil {
+		c.hull = map[*ssa.BasicBlock][]Constraint{}
+	}
+	if h, ok := c.hull[m]; ok {
+		return h
+	}
+	c.hull[m] = nil
+	out := c.mergeHull1(m)
+	c.hull[m] = out
+	return out
+}
+
+func (c *fctx) mergeHull1(m *ssa.BasicBlock) []Constraint {
+	cands := map[string]bool{}
+	per := make([][]Constraint, len(m.Preds))
+	for i, p := range m.Preds {
+		fs := append([]Constraint{}, c.branchFacts(p)...)
+		if iff, ok := p.Instrs[len(p.Instrs)-1].(*ssa.If); ok && len(p.Succs) == 2 && p.Succs[0] != p.Succs[1] {
+			ef := c.condFacts(iff.Cond, p.Succs[0] == m, 0)
+			for _, f := range ef {
+				if len(f.L.T) == 1 {
+					for a := range f.L.T {
+						cands[a] = true
+					}
+				}
+			}
+			fs = append(fs, ef...)
+		}
+		per[i] = fs
+	}
+	var names []string
+	for a := range cands {
+		names = append(names, a)
+	}
+	sort.Strings(names)
+	var out []Constraint
+	why := "widest bound over the branches that meet at " + c.ba.Prog.Pos(InstrPos(m.Instrs[0]))
+	for _, a := range names {
+		var minLo, maxHi *big.Rat
+		okLo, okHi := true, true
+		for i := range m.Preds {
+			fs := per[i]
+			for _, f := range c.intr[a] {
+				fs = append(fs, f)
+			}
+			lo, hi := BoundsOf(fs, LinAtom(a))
+			if lo == nil {
+				okLo = false
+			} else if minLo == nil || lo.Cmp(minLo) < 0 {
+				minLo = lo
+			}
+			if hi == nil {
+				okHi = false
+			} else if maxHi == nil || hi.Cmp(maxHi) > 0 {
+				maxHi = hi
+			}
+		}
+		if okLo && minLo != nil {
+			// integers: round the lower bound up
+			n := new(big.Int).Quo(minLo.Num(), minLo.Denom())
+			if new(big.Rat).SetInt(n).Cmp(minLo) < 0 {
+				n.Add(n, big.NewInt(1))
+			}
+			if n.IsInt64() {
+				out = append(out, GE0(LinAtom(a).AddConst(-n.Int64()), why))
+			}
+		}
+		if okHi && maxHi != nil {
+			n := new(big.Int).Quo(maxHi.Num(), maxHi.Denom())
+			if new(big.Rat).SetInt(n).Cmp(maxHi) > 0 {
+				n.Sub(n, big.NewInt(1))
+			}
+			if n.IsInt64() {
+				out = append(out, GE0(LinAtom(a).Scale(-1).AddConst(n.Int64()), why))
+			}
+		}
+	}
+	return out
+}
+
+// neqTighten: "d != 0" outcomes that dominate b, combined with the facts in hand: where those bound d on one
+// side by 0, the inequality becomes strict (integers).
+func (c *fctx) neqTighten(b *ssa.BasicBlock, facts []Constraint, target *Lin) []Constraint {
+	var out []Constraint
+	for _, nf := range c.neqAt[b] {
+		// only inequalities about a quantity the target itself mentions (a dispatch on an opcode leaves
+		// hundreds of them behind)
+		shares := false
+		for a := range nf.d.T {
+			if _, ok := target.T[a]; ok {
+				shares = true
+			}
+		}
+		if !shares {
+			continue
+		}
+		lo, hi := BoundsOf(facts, nf.d)
+		if lo != nil && lo.Sign() >= 0 {
+			out = append(out, GE0(nf.d.Clone().AddConst(-1), nf.why))
+		} else if hi != nil && hi.Sign() <= 0 {
+			out = append(out, GE0(nf.d.Clone().Scale(-1).AddConst(-1), nf.why))
+		}
 	}
 	return out
 }
@@ -2844,6 +2988,9 @@ func (c *fctx) proveWith(b *ssa.BasicBlock, extra []Constraint, target *Lin) boo
 		return target.C.Sign() >= 0
 	}
 	facts, atoms := c.gatherAtoms(b, target)
+	if len(c.neqAt[b]) > 0 {
+		facts = append(facts, c.neqTighten(b, facts, target)...)
+	}
 	for _, e := range extra {
 		facts = append(facts, e)
 		f2, a2 := c.gatherAtoms(b, e.L)
